@@ -715,6 +715,139 @@ async def _(mpc):
         poly.powmod = orig
 
 
+@case('C16', 'mpc.threshold assigned after start: PRSS either still agrees or refuses to run', 'b17a618', cfg=(3, 1, False), expected=True)
+async def _(mpc):
+    secint = mpc.SecInt(16)
+    ok = all(int(b) in (0, 1) for b in await mpc.output(mpc.random_bits(secint, 6)))
+    mpc.threshold = mpc.threshold              # the setter replaces the keys by fresh keys of this party only
+    x = mpc.input(secint(3 + mpc.pid))
+    ok = ok and int(await mpc.output(mpc.sum(x))) == 12      # operations without PRSS keep working
+    try:
+        mpc.prfs(1 << 20)                      # what every PRSS-based protocol evaluates first
+    except RuntimeError:
+        return ok                              # refused: no silent garbage
+    bits = await mpc.output(mpc.random_bits(secint, 6))
+    return ok and all(int(b) in (0, 1) for b in bits) and bool(await mpc.is_zero_public(secint(0)))
+
+
+@case('C09', 'input with senders=[0, 0] (a party listed twice)', 'd559911', cfg=(3, 1, False), expected=[5])
+async def _(mpc):
+    secint = mpc.SecInt(16)
+    y = mpc.input(secint(5 + mpc.pid), senders=[0, 0])
+    return _ints(await mpc.output(y))
+
+
+@case('C13', 'random_split over a field with at most m elements is refused (t > 0)', '33ae55a', expected=['ValueError', 'ValueError', 3, 3])
+async def _(mpc):
+    from mpyc import thresha, finfields
+    out = []
+    for fld, m_ in ((finfields.GF(3), 3), (finfields.GF(2), 2)):
+        try:
+            thresha.random_split(fld, [fld(1)], 1, m_)
+            out.append('dealt')
+        except ValueError:
+            out.append('ValueError')
+    out.append(len(thresha.random_split(finfields.GF(3), [finfields.GF(3)(1)], 0, 3)))      # t = 0: no polynomial needed
+    out.append(len(thresha.random_split(finfields.GF(5), [finfields.GF(5)(1)], 1, 3)))
+    return out
+
+
+@case('C13', 'np_random_split over GF(3) with 3 parties is refused', '33ae55a', numpy=True, expected='ValueError')
+async def _(mpc):
+    from mpyc import thresha, finfields
+    fld = finfields.GF(3)
+    try:
+        thresha.np_random_split(fld, fld.array(np.array([1, 2])), 1, 3)
+    except ValueError:
+        return 'ValueError'
+    return 'dealt'
+
+
+@case('C39', 'SecFld(2) created with threshold 0 is not reused after the threshold is raised', '3f535bb', cfg=(3, 1, True),
+      expected=[2, 4, 1])
+async def _(mpc):
+    mpc.threshold = 0
+    a = mpc.SecFld(2)
+    mpc.threshold = 1
+    b = mpc.SecFld(2)
+    x = mpc.input(b(1), senders=0)
+    return [a.field.order, b.field.order, int(await mpc.output(x * x))]
+
+
+@case('C38', 'public polynomial == / != secure polynomial (public operand first)', 'db23ffe', numpy=True, expected=[True, 1, 0, 0, 1])
+async def _(mpc):
+    from mpyc import gfpx
+    from mpyc.secpols import secpoly
+    P = gfpx.GFpX(31)
+    a, b = P([1, 2, 3]), P([1, 2, 4])
+    f = secpoly(a, sectype=mpc.SecFld(31))
+    r = [a == f, a != f, b == f, b != f]
+    return [all(isinstance(v, mpc.SecureObject) for v in r)] + [int(await mpc.output(v)) for v in r]
+
+
+@case('C38', 'secure polynomial comparisons over a signed prime field order coefficients as 0..p-1', '1010740', numpy=True,
+      expected=[0, 1, 0, 1])
+async def _(mpc):
+    from mpyc import gfpx
+    from mpyc.secpols import secpoly
+    S = mpc.SecFld(31, signed=True)
+    P = gfpx.GFpX(31)
+    f, g = secpoly(P([30]), sectype=S), secpoly(P([1]), sectype=S)
+    u, v = secpoly(P([5, 16]), sectype=S), secpoly(P([5, 15]), sectype=S)
+    return [int(await mpc.output(c)) % 31 for c in (f < g, g < f, u < v, u >= v)]
+
+
+@case('C38', 'iterating over a secure polynomial terminates', '249d685', numpy=True, expected=[1, 2, 3])
+async def _(mpc):
+    import itertools
+    from mpyc.secpols import secpoly
+    f = secpoly(np.array([1, 2, 3]), sectype=mpc.SecFld(31))
+    cs = list(itertools.islice(iter(f), 50))
+    return _ints(await mpc.output(cs)) if len(cs) < 50 else 'unbounded'
+
+
+@case('C37', 'SecFxp(64,48) array product with negative entries', '3c924f8', numpy=True, expected=[0.75, -1.125, 2.625], tol=2 ** -40)
+async def _(mpc):
+    fx = mpc.SecFxp(64, 48)
+    r = fx.array(np.array([1.5, -2.25, -1.75])) * fx.array(np.array([.5, .5, -1.5]))
+    return [float(v) for v in await mpc.output(r)]
+
+
+@case('C37', 'zero-size secure arrays with option --mix32-64bit (list-based split / recombine)', 'fe2a0ec', numpy=True,
+      expected=[[0, 2], [0, 2], 0])
+async def _(mpc):
+    was = mpc.options.mix32_64bit
+    mpc.options.mix32_64bit = True
+    try:
+        secint = mpc.SecInt(24)
+        e = mpc.input(secint.array(np.zeros((0, 2), dtype=int)), senders=0)
+        r = await mpc.output(e * e + e)
+        s = await mpc.output(mpc.np_sum(e))
+        return [list(e.shape), list(r.shape), int(s)]
+    finally:
+        mpc.options.mix32_64bit = was
+
+
+@case('C37', 'zero-size secure arrays with option --mix32-64bit, 3 parties', 'fe2a0ec', cfg=(3, 1, False), numpy=True, expected=[[0], 0])
+async def _(mpc):
+    was = mpc.options.mix32_64bit
+    mpc.options.mix32_64bit = True
+    try:
+        secint = mpc.SecInt(24)
+        e = mpc.input(secint.array(np.zeros((0,), dtype=int)), senders=0)
+        r = await mpc.output(e * e)
+        return [list(r.shape), int(await mpc.output(mpc.np_sum(e * e)))]
+    finally:
+        mpc.options.mix32_64bit = was
+
+
+@case('C37', '2 ** (secure integer array) with 3 parties (non-senders declare a placeholder)', '30a9e36', cfg=(3, 1, False), numpy=True,
+      expected=[1, 2, 32])
+async def _(mpc):
+    secint = mpc.SecInt(32)
+    return _ints(await mpc.output(2 ** secint.array(np.array([0, 1, 5]))))
+
+
 # ---------------------------------------------------------------------------------------------------- driver
 def _close(a, b, tol):
     if isinstance(a, (list, tuple)) and isinstance(b, (list, tuple)):
